@@ -192,6 +192,12 @@ func (p *Conn) checkProxyHeader() error {
 		return err
 	}
 
+	// LOCAL command or UNKNOWN protocol: no address is carried by the header,
+	// the endpoints of the connection itself are the real ones
+	if hdr.Command.IsLocal() || hdr.TransportProtocol.IsUnspec() {
+		return nil
+	}
+
 	// initial real src/dst address
 	srcAddr := net.JoinHostPort(hdr.SourceAddress.String(), fmt.Sprintf("%d", hdr.SourcePort))
 	p.srcAddr, err = net.ResolveTCPAddr(hdr.TransportProtocol.String(), srcAddr)
